@@ -279,9 +279,16 @@ pub fn emit_module_noalloc(spec: &Spec) -> String {
     let mut s = String::new();
     s.push_str(&format!("#[allow(dead_code, unused_variables, unused_parens, clippy::all)]\npub mod {} {{\n", spec.name));
     s.push_str("    use ::microscpi as scpi;\n");
-    s.push_str("    pub struct I { pub calls: ::heapless::Vec<(u16, u32), 64>, pub dropped: u32, pub fail_mask: u64, pub queue: scpi::StaticErrorQueue<4> }\n");
-    s.push_str("    impl I {\n        pub fn new() -> Self { I { calls: ::heapless::Vec::new(), dropped: 0, fail_mask: 0, queue: scpi::StaticErrorQueue::new() } }\n");
-    s.push_str("        fn rec(&mut self, id: u16, sum: u32) -> Result<(), scpi::Error> {\n            if self.calls.push((id, sum)).is_err() { self.dropped += 1; }\n            if self.fail_mask >> (id % 64) & 1 == 1 { Err(scpi::Error::Custom(-(id as i16) - 1, \"handler \\\"failed\\\"\")) } else { Ok(()) }\n        }\n    }\n");
+    // generic over the queue capacity: interface types with generic parameters are a shape of their own
+    s.push_str("    pub struct I<const Q: usize> { pub calls: ::heapless::Vec<(u16, u32), 64>, pub dropped: u32, pub fail_mask: u64, pub queue: scpi::StaticErrorQueue<Q> }\n");
+    s.push_str("    /// application-defined error type (every third handler returns it instead of scpi::Error)\n");
+    s.push_str("    #[derive(Debug)]\n    pub struct AppErr(pub i16);\n");
+    s.push_str("    impl ::core::fmt::Display for AppErr { fn fmt(&self, f: &mut ::core::fmt::Formatter<'_>) -> ::core::fmt::Result { write!(f, \"application error {}\", self.0) } }\n");
+    s.push_str("    impl From<AppErr> for scpi::Error { fn from(e: AppErr) -> Self { scpi::Error::Custom(e.0, \"application \\\"error\\\"\") } }\n");
+    s.push_str("    impl<const Q: usize> I<Q> {\n        pub fn new() -> Self { I { calls: ::heapless::Vec::new(), dropped: 0, fail_mask: 0, queue: scpi::StaticErrorQueue::new() } }\n");
+    s.push_str("        fn failing(&mut self, id: u16, sum: u32) -> bool {\n            if self.calls.push((id, sum)).is_err() { self.dropped += 1; }\n            self.fail_mask >> (id % 64) & 1 == 1\n        }\n");
+    s.push_str("        fn rec(&mut self, id: u16, sum: u32) -> Result<(), scpi::Error> {\n            if self.failing(id, sum) { Err(scpi::Error::Custom(-(id as i16) - 1, \"handler \\\"failed\\\"\")) } else { Ok(()) }\n        }\n");
+    s.push_str("        fn rec_app(&mut self, id: u16, sum: u32) -> Result<(), AppErr> {\n            if self.failing(id, sum) { Err(AppErr(-(id as i16) - 1)) } else { Ok(()) }\n        }\n    }\n");
     s.push_str("    pub trait Sum { fn sum(&self) -> u32; }\n");
     for t in ["u8", "i8", "u16", "i16", "u32", "i32", "u64", "i64", "usize", "isize"] {
         s.push_str(&format!("    impl Sum for {} {{ fn sum(&self) -> u32 {{ (*self as u64 as u32) ^ ((*self as u64 >> 32) as u32) }} }}\n", t));
@@ -291,21 +298,24 @@ pub fn emit_module_noalloc(spec: &Spec) -> String {
     s.push_str("    impl Sum for bool { fn sum(&self) -> u32 { *self as u32 } }\n");
     s.push_str("    impl Sum for &str { fn sum(&self) -> u32 { self.as_bytes().iter().fold(self.len() as u32, |a, b| a.wrapping_mul(31).wrapping_add(*b as u32)) } }\n");
     s.push_str("    impl Sum for &[u8] { fn sum(&self) -> u32 { self.iter().fold(self.len() as u32, |a, b| a.wrapping_mul(31).wrapping_add(*b as u32)) } }\n");
-    s.push_str("    impl scpi::ErrorCommands for I { fn error_queue(&mut self) -> &mut impl scpi::ErrorQueue { &mut self.queue } }\n");
-    s.push_str("    impl scpi::StandardCommands for I {}\n");
-    s.push_str("    #[scpi::interface(StandardCommands, ErrorCommands)]\n    impl I {\n");
+    s.push_str("    impl<const Q: usize> scpi::ErrorCommands for I<Q> { fn error_queue(&mut self) -> &mut impl scpi::ErrorQueue { &mut self.queue } }\n");
+    s.push_str("    impl<const Q: usize> scpi::StandardCommands for I<Q> {}\n");
+    s.push_str("    #[scpi::interface(StandardCommands, ErrorCommands)]\n    impl<const Q: usize> I<Q> {\n");
     for (id, d) in spec.decls.iter().enumerate() {
         let params: Vec<String> = d.params.iter().enumerate().map(|(i, t)| format!("a{}: {}", i, t.rust())).collect();
         let sums: Vec<String> = (0..d.params.len()).map(|i| format!("Sum::sum(&a{})", i)).collect();
         let sum_expr = if sums.is_empty() { "0u32".to_string() } else { sums.join(".wrapping_mul(33) ^ ") };
+        let app = id % 3 == 1;
         s.push_str(&format!("        #[scpi(cmd = \"{}\")]\n", d.cmd));
         s.push_str(&format!(
-            "        pub {}fn h{}(&mut self{}{}) -> Result<{}, scpi::Error> {{\n            self.rec({}, {})?;\n            Ok({})\n        }}\n",
+            "        pub {}fn h{}(&mut self{}{}) -> Result<{}, {}> {{\n            self.{}({}, {})?;\n            Ok({})\n        }}\n",
             if d.is_async { "async " } else { "" },
             id,
             if params.is_empty() { "" } else { ", " },
             params.join(", "),
             na_ret_type(&d.ret),
+            if app { "AppErr" } else { "scpi::Error" },
+            if app { "rec_app" } else { "rec" },
             id,
             sum_expr,
             na_ret_expr(&d.ret, id)
